@@ -85,6 +85,17 @@ def Src.ackCmd (s : Src) (i : Nat) : Src × String :=
       if i > m.lastOutbox then (s, "ok")
       else ({ s with st := some { m with lastAcked := max m.lastAcked i }, outbox := s.outbox.filter (· != i) }, "ok")
 
+/-- the replicated cleanup command (applyMigrationOutboxCleanup): once every outbox row up to the last one
+    is covered it also deletes the migration-state row (and with it the fence) -/
+def Src.cleanup (s : Src) (through : Nat) : Src × String :=
+  let s := { s with idx := s.idx + 1 }
+  if through == 0 then (s, "err:invalid")
+  else
+    let st := match s.st with
+      | some m => if m.lastOutbox != 0 && m.lastOutbox ≤ through then none else some m
+      | none => none
+    ({ s with st := st, outbox := s.outbox.filter (fun i => i > through) }, "ok")
+
 /-- one apply_delta command at the target: skipped if its replay key is recorded, otherwise the
     effect and the record are written in the same batch -/
 def Tgt.applyDelta (t : Tgt) (d : Delta) : Tgt :=
